@@ -19,6 +19,10 @@ Domain
     package with the subclasses is loaded and every class queried while the bases' package is not loaded yet, then that
     package is loaded too ("late"); or everything is loaded and queried and one class is then replaced in its module
     through `set_member` by a class with other bases and members ("replace"). The answers for the final tree are judged.
+    In package cases every class is judged a second time *through every module-level alias that leads to it* in the loaded
+    tree (renamed imports, re-export hops, `__init__` re-exports, expanded wildcards): `alias.mro()`, `alias.inherited_members`,
+    `alias.all_members`, `alias[name]` - inherited members must be inherited aliases under the alias's path, declared
+    ones must not be flagged inherited and must target the class's own member.
   * every class defines a pseudo-random subset of 4 names as function / attribute / member class / property /
     staticmethod / classmethod, possibly `__init__` (with or without a `self.<name> = ...` instance attribute) and
     `__class_getitem__`.
@@ -384,6 +388,102 @@ def judge_class(case, i: int, exp: dict, g, where: str) -> list[Fail]:
     return fails
 
 
+def _class_aliases(collection, gclasses) -> list:
+    """Every module-level alias of the loaded tree that leads to one of the judged classes: (alias, class index, hops)."""
+    from _griffe.exceptions import AliasResolutionError, CyclicAliasError
+
+    index = {id(g): i for i, g in enumerate(gclasses) if g is not None}
+    out = []
+
+    def walk(mod) -> None:
+        for name in sorted(mod.members):
+            member = mod.members[name]
+            if member.is_alias:
+                try:
+                    target = member.final_target
+                    hops, t = 1, member.target
+                    while getattr(t, "is_alias", False):
+                        hops, t = hops + 1, t.target
+                except (AliasResolutionError, CyclicAliasError):
+                    continue
+                if id(target) in index:
+                    out.append((member, index[id(target)], hops))
+            elif member.is_module:
+                walk(member)
+
+    for top in sorted(collection.members):
+        walk(collection.members[top])
+    return out
+
+
+def judge_alias_view(case, i: int, exp: dict, al, where: str) -> list[Fail]:
+    """The member clauses again, for the class reached through an import / re-export: `collection[alias_path]`.
+    Inherited members must be presented as inherited aliases under the *alias's* path, declared ones as not inherited."""
+    fails: list[Fail] = []
+    ap = al.path
+    shape = f"{_shape(case, i)} reached as {ap}"
+    path = H.class_path(case, i)
+    if exp["status"] == "err":
+        try:
+            got = call("alias-view", al.mro, what=f"{ap}.mro()", allowed=(ValueError,))
+            fails.append(Fail("alias-view", "uncomputable-returned", f"{shape}: CPython cannot build the class ({exp['why']}); mro() through the alias returned {[c.path for c in got]}\n{where}"))
+        except ValueError:
+            pass
+        inh = call("alias-view", lambda: dict(al.inherited_members), what=f"{ap}.inherited_members")
+        if inh:
+            fails.append(Fail("alias-view", "uncomputable-inherited-nonempty", f"{shape}: uncomputable MRO but inherited_members through the alias = {sorted(inh)}\n{where}"))
+        return fails
+    want = [H.class_path(case, j) for j in exp["mro"]]
+    try:
+        got = [c.path for c in call("alias-view", al.mro, what=f"{ap}.mro()", allowed=(ValueError,))]
+    except ValueError as exc:
+        return [Fail("alias-view", "mro-raised-ValueError", f"{shape}: CPython MRO {want}; mro() through the alias raised ValueError: {exc}\n{where}")]
+    if got != want:
+        fails.append(Fail("alias-view", "mro", f"{shape}: CPython MRO (loaded classes) {want}, through the alias {got}\n{where}"))
+    attrs = exp["attrs"]
+    own = set(H.declared_names(case, i))
+    unjudged = set(exp["ext_names"]) | set(exp["ia"])  # no expectation / already reported as the known finding on the class itself
+    want_inh = {n for n, (definer, _) in attrs.items() if definer != i and n not in own} - unjudged
+    inh = call("alias-view", lambda: al.inherited_members, what=f"{ap}.inherited_members")
+    allm = call("alias-view", lambda: al.all_members, what=f"{ap}.all_members")
+    if set(inh) - unjudged != want_inh:
+        fails.append(Fail("alias-view", "inherited-keys", f"{shape}: CPython inherits {sorted(want_inh)}, inherited_members through the alias has {sorted(set(inh) - unjudged)}\n{where}"))
+    if set(allm) - unjudged != want_inh | own:
+        fails.append(Fail("alias-view", "all_members-keys", f"{shape}: all_members through the alias has {sorted(set(allm) - unjudged)}, expected {sorted(want_inh | own)}\n{where}"))
+    for n in sorted(want_inh):
+        cpy = f"{H.class_path(case, attrs[n][0])}.{n}"
+        views = [("inherited_members", inh.get(n)), ("all_members", allm.get(n))]
+        try:
+            views.append(("item access", call("alias-view", al.__getitem__, n, what=f"{ap}[{n!r}]", allowed=(KeyError,))))
+        except KeyError:
+            fails.append(Fail("alias-view", "getitem-KeyError", f"{shape}: {ap}[{n!r}] raised KeyError, CPython finds {cpy}\n{where}"))
+        for how, m in views:
+            if m is None:
+                continue
+            if not getattr(m, "is_alias", False):
+                fails.append(Fail("alias-view", "inherited-not-an-alias", f"{shape}: {n!r} via {how} is {m!r}\n{where}"))
+                continue
+            if m.inherited is not True:
+                fails.append(Fail("alias-view", "inherited-flag", f"{shape}: inherited member {n!r} via {how} has inherited={m.inherited!r}: presented as if {ap} declared it\n{where}"))
+            if m.path != f"{ap}.{n}":
+                fails.append(Fail("alias-view", "inherited-path", f"{shape}: inherited member {n!r} via {how} has path {m.path!r}, expected {ap}.{n}\n{where}"))
+            tgt = call("alias-view", lambda m=m: m.final_target.path, what=f"{ap}.{n} final_target")
+            if tgt != cpy:
+                fails.append(Fail("alias-view", "inherited-target", f"{shape}: CPython finds {cpy} for {n!r}; via {how} the member targets {tgt}\n{where}"))
+    for n in sorted(own):
+        m = allm.get(n)
+        if m is None:
+            continue  # reported by all_members-keys
+        if getattr(m, "inherited", False):
+            fails.append(Fail("alias-view", "declared-flag", f"{shape}: declared member {n!r} is presented as inherited through the alias\n{where}"))
+        if m.path != f"{ap}.{n}":
+            fails.append(Fail("alias-view", "declared-path", f"{shape}: declared member {n!r} has path {m.path!r} through the alias, expected {ap}.{n}\n{where}"))
+        tgt = call("alias-view", lambda m=m: m.final_target.path if m.is_alias else m.path, what=f"{ap}.{n} final_target")
+        if tgt != f"{path}.{n}":
+            fails.append(Fail("alias-view", "declared-shadowed", f"{shape}: declared member {n!r} through the alias targets {tgt}, expected {path}.{n}\n{where}"))
+    return fails
+
+
 def _known_inherited_instance_attribute(case, fail: Fail) -> bool:
     """Known finding: the only thing wrong is that an instance attribute assigned in a base class's `__init__` is listed
     as inherited member (CPython's lookup through the MRO finds nothing) or wins over the class-level definition CPython
@@ -399,7 +499,7 @@ KNOWN = {SLUG_IA: _known_inherited_instance_attribute}
 
 
 # ----------------------------------------------------------------------------- entry points
-_LAST: list = [None, None]  # (case object, its expectation): lets `describe` reuse the oracle result of the check
+_LAST: list = [None, None, (0, 0)]  # (case object, its expectation): lets `describe` reuse the oracle result of the check
 
 
 def _expect_of(case):
@@ -415,7 +515,7 @@ def evaluate(case):
     fails: list[Fail] = []
     if kind in ("one", "cyc"):
         gclasses, code = _load_one(case)
-        _LAST[0], _LAST[1] = case, expect
+        _LAST[0], _LAST[1], _LAST[2] = case, expect, (0, 0)
         for i, exp in enumerate(expect):
             if exp["status"] != "skip":
                 fails.extend(judge_class(case, i, exp, gclasses[i], code))
@@ -453,7 +553,7 @@ def evaluate(case):
         new = _new_class(case, hist)
         parent = before[j].parent if before[j] is not None else None
         if parent is None:
-            _LAST[0], _LAST[1] = orig, expect0
+            _LAST[0], _LAST[1], _LAST[2] = orig, expect0, (0, 0)
             return fails, expect0
         call("history", parent.set_member, H.cls_name(case, j), new, what=f"{parent.path}.set_member({H.cls_name(case, j)!r}, <new class>)")
         case = H.final_case(case)
@@ -471,7 +571,18 @@ def evaluate(case):
                 # same clause, own bucket: the answer is only wrong because of what happened before
                 f = Fail(f.clause, f"{f.kind}[after-{hist['type']}]", f.message, {**(f.detail or {}), "final": True})
             fails.append(f)
-    _LAST[0], _LAST[1] = orig, expect0
+    # the same classes reached through every import / re-export that leads to them
+    n_views = n_far = 0
+    for al, i, hops in _class_aliases(loader.modules_collection, gclasses):
+        if expect[i]["status"] == "skip":
+            continue
+        n_views += 1
+        n_far += hops >= 2
+        for f in judge_alias_view(case, i, expect[i], al, where):
+            if hist:
+                f = Fail(f.clause, f"{f.kind}[after-{hist['type']}]", f.message, f.detail)
+            fails.append(f)
+    _LAST[0], _LAST[1], _LAST[2] = orig, expect0, (n_views, n_far)
     return fails, expect0
 
 
@@ -490,6 +601,10 @@ def describe(case, expect):
         classes.add(f"pkg:modules={max(case['mods']) + 1}")
         classes.add("pkg:really-imported" if _importable(case, expect) else "pkg:abstract-oracle-only")
         classes.add(f"pkg:resolve_aliases={bool(case['resolve'])}")
+        if _LAST[0] is case and _LAST[2][0]:
+            classes.add("pkg:classes-judged-through-aliases")
+            if _LAST[2][1]:
+                classes.add("pkg:classes-judged-through-aliases:2+hops")
         lib = case.get("lib")
         if lib:
             classes.add(f"pkg:two-distributions:{lib['style']}:{'twin-names' if case.get('clsnames') else 'unique-names'}")
